@@ -344,17 +344,19 @@ CHECKS["C20"] = dict(
           "real transport over a graphsync double: 4-8 goroutines firing every hook/listener with every message kind racing one controller per channel "
           "(open/pause/resume/close/cleanup/options), then Shutdown. C20Monitor: bursts of events from 4-11 goroutines on the real monitor with millisecond timers, then shutdown. "
           "C20E2E (bubble): two full nodes, 4-10 simultaneous transfers, 4 disturbing goroutines (pause/resume/close/restart/disconnect), Stop mid-flight or after completion. "
-          "C20Hazard: the four hang triggers found earlier (graphsync request carrying a cancel, handler refusing inside the outgoing hook, cleanup during open, incoming-request "
-          "hook overlapping the channel's ending), one per case. distinct = each case is a distinct seeded schedule."),
+          "C20Hazard: the hang triggers found earlier, placed deterministically (graphsync request carrying a cancel, handler refusing inside the outgoing hook, cleanup during open, "
+          "incoming-request hook overlapping the channel's ending, pause/resume while a message for the same channel is queued in graphsync's request / response manager loop), one per "
+          "case. The graphsync double models go-graphsync's two single-threaded manager loops (hooks run inside them, Request/Cancel/Pause/Unpause/SendUpdate wait for them). "
+          "distinct = each case is a distinct seeded schedule."),
     parts=[
         dict(test="TestC20Manager", quick=16, thorough=400, per_shard=4, gomaxprocs=8, max_shards=4),
         dict(test="TestC20Transport", quick=12, thorough=300, per_shard=3, gomaxprocs=8, max_shards=4),
         dict(test="TestC20Monitor", quick=8, thorough=200, per_shard=4, gomaxprocs=8, max_shards=2),
         dict(test="TestC20E2E", quick=8, thorough=200, per_shard=2, watchdog=200),
-        dict(test="TestC20Hazard", quick=8, thorough=80, per_shard=4),
+        dict(test="TestC20Hazard", quick=12, thorough=96, per_shard=4),
     ],
     floors=dict(any={"TestC20Manager.operations": 8000, "TestC20Manager.reentrant_calls": 300, "TestC20Transport.operations": 8000, "TestC20Monitor.events": 5000,
-                     "TestC20E2E.transfers": 30, "TestC20Hazard.hazard.hook-overlapping-ending": 2}),
+                     "TestC20E2E.transfers": 30, "TestC20Hazard.hazard.hook-overlapping-ending": 2, "TestC20Hazard.hazard.pause-reached-graphsync-with-message-queued": 4}),
     assumptions=["Transport.ChannelsForPeer (diagnostic accessor, unsynchronised read of the current request id) is outside the surface the property lists and is not driven",
                  "a hang verdict needs a stable, fully parked goroutine picture; a busy process is inconclusive"],
 )
